@@ -46,7 +46,7 @@ def ion_params(case):
             "number of subgrids": "[%d, %d, %d]" % tuple(case["nsub"]),
             "periodicity": "[" + ", ".join("true" if x else "false" for x in case["periodic"]) + "]"},
         "DensityFunction": {"type": "BlockSyntax", "filename": "blocks.yml"},
-        "DensityGridWriter": {"type": "Gadget", "padding": 3, "prefix": "snap_"},
+        "DensityGridWriter": {"type": case.get("writer", "Gadget"), "padding": 3, "prefix": "snap_"},
         "TaskBasedIonizationSimulation": sim,
         "PhotonSourceSpectrum": {"type": "Monochromatic", "frequency": "3.28847e+15 Hz"},
         "CrossSections": dict(cmirun.FIXED_XS),
@@ -106,7 +106,8 @@ def check_accounting(case, workdir):
     if case.get("jitter") is not None:
         env["CMI_VERIF_JITTER"] = case["jitter"]
     args = ["--params", "params.yml", "--task-based", "--threads", str(case["threads"])]
-    run = cmirun.run(workdir, args, env, timeout=case.get("timeout", 30))
+    # normal: 1-3 CPU seconds; a hung iteration busy-waits on all threads
+    run = cmirun.run(workdir, args, env, timeout=600, cpu_limit=90)
     nsub = case["nsub"][0] * case["nsub"][1] * case["nsub"][2]
     # labels
     if case["threads"] >= 2:
@@ -127,10 +128,14 @@ def check_accounting(case, workdir):
         r.label("periodic")
     if case["source"].get("on_boundary"):
         r.label("source-on-subgrid-boundary")
-    if run["timeout"]:
+    if run["cpu_exceeded"]:
         recs = cmirun.parse_kv_lines(os.path.join(workdir, "verif_accounting.txt"))
-        return r.fail("run did not finish within %d s (normal < 2 s): %d accounting records so far; last output: %s" % (
-            case.get("timeout", 30), len(recs), run["out"][-200:].replace("\n", " | ")))
+        r.schedule_dependent = case["threads"] > 1
+        return r.fail("run did not finish: 90 s of CPU time used up (a normal run needs 1-3 s): the iteration never ended; %d accounting records so far; last output: %s" % (
+            len(recs), run["out"][-200:].replace("\n", " | ")))
+    if run["timeout"]:
+        r.inconclusive = "wall-clock limit hit without exhausting the CPU budget (machine overloaded?)"
+        return r
     if run["rc"] != 0:
         return r.fail("run failed rc=%s: %s" % (run["rc"], run["out"][-600:].replace("\n", " | ")))
     recs = cmirun.parse_kv_lines(os.path.join(workdir, "verif_accounting.txt"))
@@ -258,7 +263,10 @@ def cases(draw):
     return {
         "ncell": ncell, "nsub": nsub, "periodic": periodic, "anchor": anchor, "sides": sides,
         "blocks": blocks, "source": source, "continuous": cont, "photons": photons,
-        "iterations": draw(st.integers(1, 3)), "seed": draw(st.integers(1, 10 ** 6)),
+        # continuous sources end every iteration with a race-prone hand-over
+        # (last source task flushes the partially filled buffers): more iterations
+        "iterations": draw(st.integers(1, 3)) if ckind == "none" else draw(st.integers(2, 6)),
+        "seed": draw(st.integers(1, 10 ** 6)),
         "copy_level": draw(st.sampled_from([0, 0, 1, 2, 3])), "diffuse": diffuse,
         "reemission_probability": draw(st.sampled_from([0.364, 0.9, 0.05])),
         "helium": diffuse == "Physical" and draw(st.booleans()),
@@ -268,7 +276,7 @@ def cases(draw):
 
 
 SUBS = [
-    pbt.Sub("accounting_task_based", cases(), check_accounting, quick=160, thorough=4000,
+    pbt.Sub("accounting_task_based", cases(), check_accounting, quick=256, thorough=6000,
             shrink_budget=10,
             rule="cells {4,6,8,12}^3, subgrids dividing them (1..4 per axis), periodicity, 1-3 density blocks (tau ~ 0.6..60), single / 2-5 tabulated / no discrete sources (25% exactly on a subgrid boundary), none / isotropic / distant-star / planar continuous source, diffuse field none / fixed value / physical, 1..5000 packets (incl. < number of sources, buffer size +-1), 1-3 iterations, copy level 0-3, 1..16 threads, seeded jitter, comfortable or tight pools; non-trivial: >=2 threads, >=2 subgrids, packets not a multiple of the buffer size",
             floors={"multi-threaded": 0.5, "several-subgrids": 0.4}),
